@@ -986,6 +986,72 @@ pub proof fn lemma_stack_step<P: Prefix, L, R>(tl: Seq<Node<P, L>>, tr: Seq<Node
     lemma_icnt(fr, gr, tr.len() as int, wr);
 }
 
+/// children of an OnlyL(l) entry: the half regions below l hold the corresponding child of l and nothing of the other view
+pub proof fn lemma_only_children_l<P: Prefix, L, R>(tl: Seq<Node<P, L>>, tr: Seq<Node<P, R>>, xa: Seq<bool>, xb: Seq<bool>, l: usize, s: bool)
+    requires twf(tl), twf(tr), ent_ok(tl, tr, xa, xb, Ent::OnlyL(l))
+    ensures
+        ni_pre::<P, L, R>(tl, tr, xa, xb, kb(tl, l as int).push(s), false, chd(tl, l as int, s), None),
+        l < tl.len(),
+        chd(tl, l as int, s).is_some() ==> tlive(tl).contains(chd(tl, l as int, s).unwrap() as int) && chd(tl, l as int, s).unwrap() < tl.len(),
+{
+    let x = kb(tl, l as int);
+    lemma_live_bound(tl, l as int);
+    lemma_half_region(x, s);
+    lemma_side_child(tl, xa, l as int, s);
+    if chd(tl, l as int, s).is_some() { lemma_live_bound(tl, chd(tl, l as int, s).unwrap() as int); }
+}
+
+pub proof fn lemma_only_children_r<P: Prefix, L, R>(tl: Seq<Node<P, L>>, tr: Seq<Node<P, R>>, xa: Seq<bool>, xb: Seq<bool>, r: usize, s: bool)
+    requires twf(tl), twf(tr), ent_ok(tl, tr, xa, xb, Ent::OnlyR(r))
+    ensures
+        ni_pre::<P, L, R>(tl, tr, xa, xb, kb(tr, r as int).push(s), false, None, chd(tr, r as int, s)),
+        r < tr.len(),
+        chd(tr, r as int, s).is_some() ==> tlive(tr).contains(chd(tr, r as int, s).unwrap() as int) && chd(tr, r as int, s).unwrap() < tr.len(),
+{
+    let x = kb(tr, r as int);
+    lemma_live_bound(tr, r as int);
+    lemma_half_region(x, s);
+    lemma_side_child(tr, xb, r as int, s);
+    if chd(tr, r as int, s).is_some() { lemma_live_bound(tr, chd(tr, r as int, s).unwrap() as int); }
+}
+
+/// the two optional one-sided children of an OnlyL / OnlyR entry, pushed right first
+pub proof fn lemma_only_post_l<P: Prefix, L, R>(tl: Seq<Node<P, L>>, tr: Seq<Node<P, R>>, xa: Seq<bool>, xb: Seq<bool>, l: usize)
+    requires twf(tl), twf(tr), ent_ok(tl, tr, xa, xb, Ent::OnlyL(l))
+    ensures ni_post(tl, tr, xa, xb, kb(tl, l as int), true,
+        (match chd(tl, l as int, true) { Some(c) => s1(Ent::OnlyL(c)), None => Seq::<Ent>::empty() })
+        + (match chd(tl, l as int, false) { Some(c) => s1(Ent::OnlyL(c)), None => Seq::<Ent>::empty() }))
+{
+    lemma_only_children_l(tl, tr, xa, xb, l, true);
+    lemma_only_children_l(tl, tr, xa, xb, l, false);
+    lemma_ni_cases::<P, L, R>(tl, tr, chd(tl, l as int, true), None);
+    lemma_ni_cases::<P, L, R>(tl, tr, chd(tl, l as int, false), None);
+    let x = kb(tl, l as int);
+    assert(ni_cases::<P, L, R>(tl, tr, xa, xb, x.push(true), false, chd(tl, l as int, true), None));
+    assert(ni_cases::<P, L, R>(tl, tr, xa, xb, x.push(false), false, chd(tl, l as int, false), None));
+    lemma_ni_concat(tl, tr, xa, xb, x,
+        (match chd(tl, l as int, true) { Some(c) => s1(Ent::OnlyL(c)), None => Seq::<Ent>::empty() }),
+        (match chd(tl, l as int, false) { Some(c) => s1(Ent::OnlyL(c)), None => Seq::<Ent>::empty() }));
+}
+
+pub proof fn lemma_only_post_r<P: Prefix, L, R>(tl: Seq<Node<P, L>>, tr: Seq<Node<P, R>>, xa: Seq<bool>, xb: Seq<bool>, r: usize)
+    requires twf(tl), twf(tr), ent_ok(tl, tr, xa, xb, Ent::OnlyR(r))
+    ensures ni_post(tl, tr, xa, xb, kb(tr, r as int), true,
+        (match chd(tr, r as int, true) { Some(c) => s1(Ent::OnlyR(c)), None => Seq::<Ent>::empty() })
+        + (match chd(tr, r as int, false) { Some(c) => s1(Ent::OnlyR(c)), None => Seq::<Ent>::empty() }))
+{
+    lemma_only_children_r(tl, tr, xa, xb, r, true);
+    lemma_only_children_r(tl, tr, xa, xb, r, false);
+    lemma_ni_cases::<P, L, R>(tl, tr, None, chd(tr, r as int, true));
+    lemma_ni_cases::<P, L, R>(tl, tr, None, chd(tr, r as int, false));
+    let x = kb(tr, r as int);
+    assert(ni_cases::<P, L, R>(tl, tr, xa, xb, x.push(true), false, None, chd(tr, r as int, true)));
+    assert(ni_cases::<P, L, R>(tl, tr, xa, xb, x.push(false), false, None, chd(tr, r as int, false)));
+    lemma_ni_concat(tl, tr, xa, xb, x,
+        (match chd(tr, r as int, true) { Some(c) => s1(Ent::OnlyR(c)), None => Seq::<Ent>::empty() }),
+        (match chd(tr, r as int, false) { Some(c) => s1(Ent::OnlyR(c)), None => Seq::<Ent>::empty() }));
+}
+
 // ---- one-sided descent, mirrored: the right view's node r is strictly above the left view's node l (entry FirstR(l, r)) ----
 // (mechanical mirror image of the lemma_fl_* family, generated by tools/mirror_setops.py)
 
